@@ -178,6 +178,7 @@ type SimSource struct {
 	rng      *core.RNG
 	Fault    *SrcFault
 	Fired    int
+	FiredK   int // bytes that were delivered together with the injected error
 	failed   bool
 	Consumed int // bytes handed out so far
 	Calls    int
@@ -259,6 +260,7 @@ func (s *SimSource) Read(p []byte) (int, error) {
 			s.Consumed += k
 			s.failed = true
 			s.Fired++
+			s.FiredK = k
 			s.Log.Add("src.Read at %d -> (%d, injected %s)", f.At, k, f.Mode)
 			if f.Temp {
 				return k, ErrTemporary
